@@ -112,6 +112,7 @@ struct span {
     explicit(extent != dynamic_extent) constexpr span(It first, size_type count)
         : _storage{first, count}
     {
+        TETL_PRECONDITION(extent == dynamic_extent or count == extent);
     }
 
     /// Constructs a span. From a c style array.
@@ -153,6 +154,7 @@ struct span {
     explicit(extent != dynamic_extent) constexpr span(R&& r)
         : _storage{r.data(), ranges::size(r)}
     {
+        TETL_PRECONDITION(extent == dynamic_extent or ranges::size(r) == extent);
     }
 
     template <detail::span_convertible_from<T> U, size_t N>
@@ -160,6 +162,7 @@ struct span {
     explicit(extent != dynamic_extent and N == dynamic_extent) constexpr span(span<U, N> const& source) noexcept
         : _storage{source.data(), source.size()}
     {
+        TETL_PRECONDITION(extent == dynamic_extent or source.size() == extent);
     }
 
     /// \brief Constructs a span.
@@ -228,6 +231,7 @@ struct span {
     [[nodiscard]] constexpr auto first() const -> span<element_type, Count>
     {
         static_assert(Count <= Extent);
+        TETL_PRECONDITION(Count <= size());
         return span<element_type, Count>{data(), static_cast<size_type>(Count)};
     }
 
@@ -245,6 +249,7 @@ struct span {
     [[nodiscard]] constexpr auto last() const -> span<element_type, Count>
     {
         static_assert(Count <= Extent);
+        TETL_PRECONDITION(Count <= size());
         return span<element_type, Count>{data() + (size() - Count), static_cast<size_type>(Count)};
     }
 
@@ -265,6 +270,8 @@ struct span {
     {
         static_assert(Offset <= Extent);
         static_assert(Count == dynamic_extent or Count <= Extent - Offset);
+        TETL_PRECONDITION(Offset <= size());
+        TETL_PRECONDITION(Count == dynamic_extent or Count <= size() - Offset);
 
         auto const ptr = data() + Offset;
         auto const sz  = static_cast<size_type>(Count == dynamic_extent ? size() - Offset : Count);
